@@ -11,6 +11,9 @@ use std::cmp::min;
 use std::collections::{HashMap, VecDeque};
 use std::fmt::Debug;
 use std::net::SocketAddr;
+#[cfg(hotstuff_verif)]
+use crate::simnet::TcpStream;
+#[cfg(not(hotstuff_verif))]
 use tokio::net::TcpStream;
 use tokio::sync::mpsc::{channel, Receiver, Sender};
 use tokio::sync::oneshot;
@@ -45,6 +48,9 @@ impl ReliableSender {
     pub fn new() -> Self {
         Self {
             connections: HashMap::new(),
+            #[cfg(hotstuff_verif)]
+            rng: SmallRng::seed_from_u64(crate::simnet::next_seed()),
+            #[cfg(not(hotstuff_verif))]
             rng: SmallRng::from_entropy(),
         }
     }
